@@ -1,11 +1,32 @@
 HOOK_COMMITS = []
 NOTES = ("All checks run /verif/check <id>, which imports eudoxia from /repo's working tree (editable install + explicit path) "
-         "and explores it exhaustively within the bounds printed in each evidence file. known_findings.json lists recorded defects.")
+         "and explores it exhaustively within the bounds printed in each evidence file. known_findings.json lists recorded defects "
+         "(fixed ones are 'fix:' commits in /repo). No source hooks are needed: instrumentation wraps public entry points from outside.")
+T_SIM = "stateless deviation-bounded exhaustive exploration of command sequences on the real executor, lock-step against an executable reference model (exact rationals)"
+TRUST = "Trusted: Python semantics, the reference models in mc/refmodel.py (transcribed from README/property text), exact-arithmetic alphabets (dyadic values) for lock-step comparison. Bounded: <=4 pipelines, <=4 operators, <=3 pools, horizons <=40 ticks."
 CHECKS = [
     dict(property_id="C02",
          technique="explicit-state BFS to fixpoint over the real lifecycle object + bounded-depth stateless enumeration of request sequences; transition-log monitors on exhaustively enumerated simulations",
          text="Complete reachable state space of the real PipelineRuntimeStatus for all 11 DAGs on <=3 operators with every request in every state, all request sequences to depth 3/4 without state merging, and every transition of every enumerated simulation checked against the documented table.",
          note="Trusted: Python semantics; the documented table as transcribed in mc/refmodel.py LIFECYCLE. Bounded to DAGs of <=3 operators for the object-level search."),
+    dict(property_id="C03", technique=T_SIM,
+         text="Every command sequence with <=2 (quick) / <=3 (thorough) deviations from a default policy over 6-10 ticks on 1-2 pools, every suspension placement (F2) and every 2-4 container memory mix (F3): conservation equation, non-negativity, ledger-predicted live set and batch atomicity checked after every executor tick.",
+         note=TRUST),
+    dict(property_id="C04", technique=T_SIM,
+         text="All ordered 2-4 container mixes of fixed/growing/zero-memory profiles x allocations x offsets with and without overcommit, plus F1/F2 executions: per-tick limits, truthful reported usage, and every kill justified by model-predicted demand.",
+         note=TRUST),
+    dict(property_id="C05", technique="exhaustive enumeration of an operator-list x cpus x ram x tick-rate alphabet on the real container, matched tick-by-tick against all admissible timelines of an exact-rational model (NFA-style)",
+         text="~46k (quick) / ~1M (thorough) container runs covering zero/sub-tick/1/2.5-tick I/O and CPU phases, all seven scaling laws, memory unset/0/small/over, allocations below/just below/at/above the peak and tick rates 1..100000; float-boundary cases accept either side as the property allows.",
+         note="Trusted: the timeline model (mc/refmodel.py); log/sqrt laws evaluated in floats with a 1e-9 relative boundary band."),
+    dict(property_id="C09", technique=T_SIM,
+         text="Same executions as C03: one container per accepted assignment in the named pool, at most one result per container in the tick it leaves, success iff all operators completed, failure shape completed* failed+, unknown pools rejected, counts identity via the reference ledger.",
+         note=TRUST),
+    dict(property_id="C10", technique=T_SIM,
+         text="Suspension requested at every tick of every container life (and of every container ever seen: suspending, suspended, finished, unknown) for allocations 0.5 GB..whole pool and write-outs of 1..32 ticks, alone or beside a running/finishing/failing neighbour; acceptance, duration, held/freed resources, operator hand-back and successful re-assignment checked against the model.",
+         note=TRUST),
+    dict(property_id="C11", technique=T_SIM,
+         text="All 2-4 container sets of the memory-profile alphabet with overcommit (ties, several victims, finished and zero-usage containers in the crossing tick): the killed set must be an admissible victim set (descending score, stop as soon as usage fits, ties free) computed from model demand.",
+         note=TRUST),
 ]
 _PENDING = "check not built yet in this session; will be claimed when its driver exists"
 NOT_APPLICABLE = [dict(property_id=f"C{i:02d}", reason=_PENDING) for i in range(1, 21) if f"C{i:02d}" not in {c["property_id"] for c in CHECKS}]
